@@ -14,14 +14,16 @@ B. `resume` outcome: an operation that processed the single request `resume(d)` 
    guard at all) and in which no callback requested anything: activeSubState(d) afterwards is the sub-state
    that was resumable before (else 0):
      resume-outcome
-     resume-ignored   KNOWN FINDING S8: d has no composite ancestor (it sits directly below an orthogonal root,
+     ortho-only-ancestry   KNOWN FINDING KF-C02-ortho-only-ancestry (S8 of Props/C13.lean): d has no composite ancestor (it sits directly below an orthogonal root,
                       or below orthogonal regions only): requestImmediate finds no composite fork to mark and the
                       request is silently dropped — no guard, no callback, nothing changes (same for every kind)
 C. Pending queries inside guards, for operations with exactly one guard round, a single pending request, no
    earlier approved round (`currentTransitions` empty), no cancellation: the `/p:e.x.c` masks of every guard
    callback are compared with the enter / exit callbacks that follow in the same operation.  The library
    answers from the nearest composite ancestor only (DESIGN §8 F6), so disagreements of the following
-   KNOWN kinds are classified and counted in `stats` (`c13_kf_<signature>`), not rejected:
+   KNOWN kinds are classified and counted in `stats` (`c13_kf_<signature>`), not rejected (F6 = the pending
+   queries look at the nearest composite ancestor only; `exit-deep`, `enter-loser`, `change-loser` are F6
+   combined with KF-C02-stale-candidate-marks, tag `stale-candidate-mark`):
 
      exit-idle        isPendingExit(s) = 1, s active, s not exited; no sub-state of s's nearest composite
                       ancestor region C changed (C carries no request: requested = INVALID != active)      [F6]
@@ -193,7 +195,7 @@ def judge(hdr, ops, tree, config, rejections, stats):
             stats.inc('c13_resume_outcomes')
             if got != want:
                 if nearest_compo(tree, lone) is None and lone != 0 and not guards:
-                    tag = 'resume-ignored'
+                    tag = 'ortho-only-ancestry'
                     what = ('resume(%d) of a region without composite ancestor was dropped: sub-state %d was resumable, '
                             'activeSubState(%d) stays %r and no callback ran' % (lone, want, lone, got))
                 else:
